@@ -16,6 +16,7 @@ DSL_NAMES = {
     "is_int", "is_bool", "is_intlike", "is_float", "is_num", "is_str", "is_none", "implies", "iff", "forall_range",
     "exists_range", "forall_in", "type_is", "pow2", "bit", "same", "old", "fresh", "has_key", "dict_lookup",
     "seq_eq", "is_callable", "str_len", "range_len", "singleton", "forall_keys", "iter_pos", "iter_seq", "is_iterator",
+    "dict_key_at", "dict_val_at", "dict_len",
 }
 
 
@@ -2394,6 +2395,12 @@ def call_dsl(eng, name, args, kwargs, node, frame):
     if name == "dict_lookup":
         d, k = a
         return tv_val(DictView(eng, d).get(key_norm(eng, k)))
+    if name == "dict_len":
+        return tv_int(DictView(eng, a[0]).nkeys())
+    if name == "dict_key_at":
+        return tv_val(DictView(eng, a[0]).key_at(a[1].as_int()))
+    if name == "dict_val_at":
+        return tv_val(DictView(eng, a[0]).val_at(a[1].as_int()))
     if name == "range_len":
         return tv_int(range_len_term(eng, a[0].as_int(), a[1].as_int(), a[2].as_int()))
     if name == "singleton":
@@ -2664,6 +2671,21 @@ def filtered_comprehension(eng, node, frame, kind, view):
     raise _U("filtered comprehension over symbolic-length sequence")
 
 
+def _mentions_const(e, c):
+    seen = set()
+    stack = [e]
+    while stack:
+        t = stack.pop()
+        if t.get_id() in seen:
+            continue
+        seen.add(t.get_id())
+        if t.eq(c):
+            return True
+        if z3.is_app(t):
+            stack.extend(t.children())
+    return False
+
+
 def dict_comprehension(eng, node, frame):
     run = eng.run
     from .symexec import Frame
@@ -2705,13 +2727,17 @@ def dict_comprehension(eng, node, frame):
     facts_k = [z3.substitute(f, *subst) if subst else f for f in new_facts]
     karr = z3.Const(run.fresh_name("dkeys"), z3.ArraySort(z3.IntSort(), S.Val))
     varr = z3.Const(run.fresh_name("dvals"), z3.ArraySort(z3.IntSort(), S.Val))
-    run.assume(z3.ForAll([k], z3.Implies(rng, z3.And([z3.Select(karr, k) == key_k, z3.Select(varr, k) == val_k] + facts_k)), patterns=[z3.Select(karr, k)]))
+    has = z3.Const(run.fresh_name("dhas"), z3.ArraySort(S.Val, z3.BoolSort()))
+    get = z3.Const(run.fresh_name("dget"), z3.ArraySort(S.Val, S.Val))
+    pats = [z3.Select(karr, k)]
+    if z3.is_app(key_k) and key_k.decl().kind() == z3.Z3_OP_UNINTERPRETED and _mentions_const(key_k, k):
+        pats.append(key_k)      # also fire on the source's own key term (seq_nth(dict_keys(src), k))
+    run.assume(z3.ForAll([k], z3.Implies(rng, z3.And([z3.Select(karr, k) == key_k, z3.Select(varr, k) == val_k,
+                                                      z3.Select(has, key_k), z3.Select(get, key_k) == val_k] + facts_k)), patterns=pats))
     run.assume(z3.ForAll([k], z3.Implies(rng, z3.And([z3.Select(varr, k) == val_k])), patterns=[z3.Select(varr, k)]))
     run.assumptions_used.add("dict comprehension over a symbolic sequence: keys assumed pairwise distinct (they are the keys of a dict in every enrolled use)")
     x = z3.Const(run.fresh_name("dx"), S.Val)
     j = z3.Int(run.fresh_name("dj"))
-    has = z3.Const(run.fresh_name("dhas"), z3.ArraySort(S.Val, z3.BoolSort()))
-    get = z3.Const(run.fresh_name("dget"), z3.ArraySort(S.Val, S.Val))
     run.assume(z3.ForAll([x], z3.Select(has, x) == z3.Exists([j], z3.And(0 <= j, j < view.length, z3.Select(karr, j) == x)), patterns=[z3.Select(has, x)]))
     run.assume(z3.ForAll([j], z3.Implies(z3.And(0 <= j, j < view.length), z3.And(z3.Select(has, z3.Select(karr, j)), z3.Select(get, z3.Select(karr, j)) == z3.Select(varr, j))), patterns=[z3.Select(karr, j)]))
     fr.length, fr.arr, fr.has, fr.get = view.length, karr, has, get
